@@ -1017,7 +1017,7 @@ def run(ctx):
             "harness/overlay/server/zz_verif_c02_test.go (+ helpers of zz_verif_topic_test.go): drives the real Hub/Topic/Session code through Session.dispatchRaw; quiescence by goroutine-state snapshot; reads Topic.perUser/sessions/lastID only at quiescence; push receipts read from globals.usersUpdate (driver-owned channel) where sendPush hands them to the user cache",
             "harness/overlay/server/db/memverif: in-memory adapter written from db/mysql/adapter.go (store contract modelled, not verified)",
             "tools/props/c02.py monitors: python restatement of the property on the implementation's trace; 'attached at that moment' and 'effective permissions' are the implementation's own state dump after the previous request",
-            "model scope (coq/Sys/Fanout.v header): no cluster/proxy sessions, no background sessions, no topic pause/unload/deletion, store never fails, no ownership transfer, no invitation of absent users, no mode change of channel readers, no re-subscription after a deleted subscription; a full send buffer is constant during one publish",
+            "model scope (coq/Sys/Fanout.v header; background sessions and store faults are part c: coq/Sys/FanoutBkgC02.v, tools/props/c02c.py, driver TestVerifFanoutC02c): no cluster/proxy sessions, no topic pause/unload/deletion, no ownership transfer, no invitation of absent users, no mode change of channel readers, no re-subscription after a deleted subscription; a full send buffer is constant during one publish",
             "projection compared for C02: per publish the {data} copies per connection (topic as seen, from, id, content, head), the publisher's {ctrl} code and id, the push receipt (id, author, To set, channel address); per request the state the fan-out reads (perUser want/given/deleted/isChan, attached connections with acting user and channel flag, lastID)"],
     })
     ctx.finish()
